@@ -16,28 +16,96 @@ from acq import build, ir, report  # noqa: E402
 
 
 class Context:
-    def __init__(self, tier):
+    def __init__(self, tier, root=None, default_config="default"):
         self.tier = tier
+        self.root = root
+        self.default_config = default_config
         self._progs = {}
         self.info = {}
 
-    def program(self, config="default"):
+    def program(self, config=None):
         """Program for a build configuration.  default: the cmake flags plus
         -DNO_UNIT_TESTS; plain: without -mavx2 (selects bin2.plain.c);
         unittests: in-source unit tests compiled in."""
+        config = config or self.default_config
         if config not in self._progs:
             if config == "default":
-                facts, info = build.extract()
+                facts, info = build.extract(root=self.root)
             elif config == "plain":
-                facts, info = build.extract(drop_flags=("-mavx2",))
+                facts, info = build.extract(root=self.root, drop_flags=("-mavx2",))
             elif config == "unittests":
-                facts, info = build.extract(defs=())
+                facts, info = build.extract(root=self.root, defs=())
             else:
                 raise ValueError(config)
             self._progs[config] = ir.Program(facts, info)
-            if config == "default":
+            if config == self.default_config:
                 self.info = info
         return self._progs[config]
+
+
+def run_controls(mod, pid, tier, res):
+    """Positive controls: the property's rules must still fire on patches that
+    are known to break it (applied to a scratch copy of the current tree)."""
+    import json
+    import shutil
+    import subprocess
+    ep = os.path.join(build.VERIF, "mutants", "expect.json")
+    if not os.path.exists(ep) or os.environ.get("ACQ_NO_CONTROLS"):
+        return
+    exp = json.load(open(ep)).get(pid)
+    if not exp:
+        return
+    names = [exp["quick"]] if tier == "quick" else sorted(exp["patches"])
+    root = build.repo_root()
+    for name in names:
+        want = exp["patches"][name]
+        w = build.scratch_dir()
+        try:
+            dst = os.path.join(w, "repo")
+            subprocess.run(["rsync", "-a", "--exclude", "_build", "--exclude", ".git", root + "/", dst + "/"], check=True)
+            r = subprocess.run(["patch", "-p1", "-s", "-f", "-d", dst, "-i", os.path.join(build.VERIF, name)],
+                               stdout=subprocess.PIPE, stderr=subprocess.STDOUT, text=True)
+            if r.returncode != 0:
+                res.controls.append({"name": name, "ok": True, "skipped": True, "expected_rules": want,
+                                     "detail": "patch no longer applies to the current tree (skipped)"})
+                continue
+            res2 = report.Result(pid)
+            fired = []
+            detail = ""
+            try:
+                mod.run(Context(tier, root=dst), res2)
+            except build.AnalysisBroken as e:
+                detail = "analysis broken on the patched copy: %s" % e
+            fired = sorted({f.rule for f in res2.findings})
+            ok = bool(set(want) & set(fired))
+            res.controls.append({"name": name, "ok": ok, "expected_rules": want, "fired_rules": fired,
+                                 "detail": detail or ("rule fired on the patched copy" if ok else
+                                                      "expected one of %s to fire on the patched copy, got %s" % (want, fired))})
+        finally:
+            shutil.rmtree(w, ignore_errors=True)
+
+
+def run_configs(mod, pid, tier, res):
+    """thorough: the same rules on the other build configurations."""
+    confs = {}
+    for conf in ("plain", "unittests"):
+        res2 = report.Result(pid)
+        try:
+            mod.run(Context(tier, default_config=conf), res2)
+        except build.AnalysisBroken as e:
+            confs[conf] = {"analysis_broken": str(e)}
+            res.controls.append({"name": "configuration:" + conf, "ok": False, "detail": str(e)})
+            continue
+        have = {f.key for f in res.findings}
+        new = 0
+        for f in res2.findings:
+            if f.key not in have and "unit_test" not in f.where and "unit_test" not in f.message:
+                f.message = "[configuration %s] %s" % (conf, f.message)
+                res.findings.append(f)
+                new += 1
+        confs[conf] = {"obligations": len(res2.obligations),
+                       "held": sum(1 for o in res2.obligations if o["ok"]), "additional_findings": new}
+    res.extra["configurations"] = confs
 
 
 def main():
@@ -54,6 +122,10 @@ def main():
         mod = importlib.import_module("acq.props." + pid.lower())
         ctx.program()
         mod.run(ctx, res)
+        if not os.environ.get("ACQ_REPO"):
+            if a.tier == "thorough":
+                run_configs(mod, pid, a.tier, res)
+            run_controls(mod, pid, a.tier, res)
         rc = report.conclude(res, a.tier, t0, ctx.info)
     except build.AnalysisBroken as e:
         print("ANALYSIS-BROKEN: %s" % e)
